@@ -85,6 +85,15 @@ func TestVerifSingleFlight(t *testing.T) {
 							ok = true
 						}
 					}
+					// a result that some caller has already received must not be handed to a call that
+					// starts afterwards: a later call always executes afresh
+					if !rec.executed {
+						for _, o := range recs {
+							if o.id != rec.id && o.key == rec.key && o.val == rec.val && o.end < rec.start {
+								r.Failf("call %d (started at %d) was served the result of an execution that caller %d had already received at %d: a later call must execute afresh", rec.id, rec.start, o.id, o.end)
+							}
+						}
+					}
 					if !ok {
 						for _, e := range recs {
 							r.Logf("rec %+v", *e)
